@@ -211,3 +211,83 @@ func VH_C12_fault() {
 	}
 	sdb.VerifReach("end")
 }
+
+// Expression and partial indexes: the reader does not evaluate the expression or
+// the WHERE clause — it follows the entries that are there. An expression index
+// stores one arbitrary value per row; a partial index has entries for a subset
+// of the rows only.
+//verif:prop C02,C03
+//verif:shards 6
+//verif:bounds rowid table t(a,b) of 3 rows (one leaf); index i either ON t (a + b) [one stored value per row, any int64] or ON t (b) WHERE b > 0 [entries for any of the 8 subsets of the rows]; all 6 index orders; IndexedSelect returns exactly the covered rows in index order with the table's values, IndexedSelectEq the covered rows whose stored value equals any int64 key
+func VH_C02_partial_expression() {
+	perm := vhPerms3[sdb.VerifShard(6)]
+	f := sdb.VerifNewFile(512)
+	troot, iroot := f.AddPage(), f.AddPage()
+	partial := sdb.VerifBool()
+	sqlIdx := "CREATE INDEX i ON t (a + b)"
+	if partial {
+		sqlIdx = "CREATE INDEX i ON t (b) WHERE b > 0"
+	}
+	f.Master([]sdb.VerifMasterRow{
+		{Typ: "table", Name: "t", Tbl: "t", Root: troot, SQL: vhDefaultTableSQL},
+		{Typ: "index", Name: "i", Tbl: "t", Root: iroot, SQL: sqlIdx},
+	})
+	rows := vhTable(f, troot, 1, 3, 2, 0, false)
+	// stored index value per row: b for the partial index, anything for the expression
+	var stored [3]int64
+	covered := [3]bool{true, true, true}
+	if partial {
+		mask := sdb.VerifChoice(8)
+		for i := 0; i < 3; i++ {
+			stored[i] = rows[i].vals[1]
+			covered[i] = mask&(1<<uint(i)) != 0
+		}
+	} else {
+		for i := 0; i < 3; i++ {
+			stored[i] = sdb.VerifInt64()
+		}
+	}
+	var order []int // covered rows in index order
+	for _, i := range perm {
+		if covered[i] {
+			order = append(order, i)
+		}
+	}
+	for k := 0; k+1 < len(order); k++ {
+		x, y := order[k], order[k+1]
+		sdb.VerifAssume(sdb.VerifOr(stored[x] < stored[y], sdb.VerifAnd(stored[x] == stored[y], rows[x].rowid < rows[y].rowid)))
+	}
+	var pls [][]byte
+	for _, i := range order {
+		pls = append(pls, sdb.VerifRecord(stored[i], rows[i].rowid))
+	}
+	f.IndexLeaf(iroot, pls)
+	h, err := f.Open()
+	sdb.VerifNoErr(err, "valid file opens")
+	db := &DB{db: h}
+	var got []Row
+	cb := func(r Row) { got = append(got, r) }
+	var want []vhRow
+	if sdb.VerifBool() {
+		err = db.IndexedSelect("t", "i", cb, "a", "b", "rowid")
+		for _, i := range order {
+			want = append(want, rows[i])
+		}
+	} else {
+		k := sdb.VerifInt64()
+		err = db.IndexedSelectEq("t", "i", Key{k}, cb, "a", "b", "rowid")
+		for _, i := range order {
+			if stored[i] == k {
+				want = append(want, rows[i])
+			}
+		}
+	}
+	sdb.VerifNoErr(err, "select through an expression / partial index succeeds")
+	sdb.VerifAssert(len(got) == len(want), "exactly the covered rows")
+	if len(got) == len(want) {
+		for i := range got {
+			sdb.VerifAssert(vhRowIs(got[i], want[i]), "covered rows in index order with the table's values")
+		}
+	}
+	sdb.VerifReach("end")
+}
